@@ -18,7 +18,7 @@ from concurrent.futures import ThreadPoolExecutor
 from typing import Dict, List
 
 from .. import core, tlc
-from ..core import Report
+from ..core import Report, MachineryError
 
 # (spec, config, tag, TLC workers)
 CONTAINER_CFGS = {
@@ -43,6 +43,7 @@ TIMEOUT = {"quick": 1200, "thorough": 3000}
 # traces per TLC validation JVM (memory: ~1 GB per 10 MB of traces)
 CASES_PER_SHARD = {"rc": 700, "ct": 1500}
 FINDINGS = os.path.join(tlc.VERIF, "findings")
+MAX_REPORTED = 25          # replay files written / VIOLATION lines printed per run
 
 
 def _workers(default: int) -> int:
@@ -79,7 +80,60 @@ def _generate(spec: str, cfg: str, tag: str, workers: int, wd: str, tier: str) -
     return res
 
 
-def _replay_and_judge(cases: List[dict], wd: str, tag: str, jobs: int, tier: str) -> List[dict]:
+def _corrupt(tr: dict) -> bool:
+    """Mechanically falsifies one recorded observation of an accepted trace."""
+    res = tr["runs"][0]["res"]
+    k = tr["k"]
+    if k == "rc":
+        tr["runs"][0]["fin"]["c"][0][1] ^= 1          # Symbol.at_end after apply()
+        return True
+    if not res or res[-1][0] != "":
+        return False
+    obs = res[-1][2]
+    if k == "bo":
+        obs["adj"][0] = [9, 9]
+    elif k == "om":
+        obs["len"] += 1
+    elif k == "is":
+        obs["has"] = obs["has"] + [99]
+    elif k == "re":
+        obs["any"][0] ^= 1
+    elif k == "mc":
+        obs["cur"] = -5
+    else:
+        return False
+    return True
+
+
+def _binding_selftest(trace_files: List[str], wd: str, tag: str, tier: str) -> int:
+    """One accepted trace per kind, one recorded value falsified: the trace
+    spec must reject every one of them (else the judge is not bound to the
+    recorded values: machinery failure)."""
+    picked: Dict[str, dict] = {}
+    for tf in trace_files:
+        with open(tf) as f:
+            for line in f:
+                tr = json.loads(line)
+                if tr["k"] not in picked and tr["wit"] and _corrupt(tr):
+                    tr["id"] = "selftest-" + tr["id"]
+                    picked[tr["k"]] = tr
+        if len(picked) >= 5:
+            break
+    if not picked:
+        return 0
+    path = os.path.join(wd, f"selftest.{tag}.ndjson")
+    with open(path, "w") as out:
+        for tr in picked.values():
+            out.write(json.dumps(tr, separators=(",", ":")) + "\n")
+    for v in tlc.validate_traces("TraceContainers.tla", "TraceContainers.cfg", path,
+                                 timeout=TIMEOUT[tier]):
+        if not v["failed"]:
+            raise MachineryError(f"binding self-test: corrupted trace {v['id']} was accepted")
+    return len(picked)
+
+
+def _replay_and_judge(cases: List[dict], wd: str, tag: str, jobs: int, tier: str,
+                      selftest: bool = False):
     path = os.path.join(wd, f"cases.{tag}.ndjson")
     with open(path, "w") as out:
         for c in cases:
@@ -88,8 +142,12 @@ def _replay_and_judge(cases: List[dict], wd: str, tag: str, jobs: int, tier: str
     nshards = max(jobs, -(-len(cases) // per))
     shards = core.split_file(path, nshards, wd, f"cases.{tag}")
     traces = core.run_module_parallel("harness.containers.runner", shards, wd, tag)
-    return tlc.validate_sharded("TraceContainers.tla", "TraceContainers.cfg", traces,
-                                jobs=jobs, timeout=TIMEOUT[tier])
+    with ThreadPoolExecutor(max_workers=2) as ex:
+        st = ex.submit(_binding_selftest, traces, wd, tag, tier) if selftest else None
+        verdicts = tlc.validate_sharded("TraceContainers.tla", "TraceContainers.cfg", traces,
+                                        jobs=jobs, timeout=TIMEOUT[tier])
+        n_self = st.result() if st else 0
+    return verdicts, n_self
 
 
 def run(prop: str, tier: str, replay: str = None) -> int:
@@ -104,7 +162,7 @@ def run(prop: str, tier: str, replay: str = None) -> int:
                 rec = json.load(f)
             case = rec["case"]
             case_by_id[case["id"]] = case
-            verdicts = _replay_and_judge([case], wd, "replay", 1, tier)
+            verdicts, _ = _replay_and_judge([case], wd, "replay", 1, tier)
             sampled = False
         else:
             def containers_pipeline():
@@ -120,8 +178,8 @@ def run(prop: str, tier: str, replay: str = None) -> int:
                             cases.append(c)
                 rng2 = random.Random(core.seed() * 7919 + 1)
                 rng2.shuffle(cases)          # balance the shards
-                out = _replay_and_judge(cases, wd, "ct", 6, tier)
-                return gens, cases, out
+                out, n_self = _replay_and_judge(cases, wd, "ct", 6, tier, selftest=True)
+                return gens, cases, out, n_self
 
             def refcache_pipeline():
                 g = _generate("RefCache.tla", REFCACHE_CFG[tier], "rc", 16, wd, tier)
@@ -138,14 +196,16 @@ def run(prop: str, tier: str, replay: str = None) -> int:
                     deep = rng.sample(deep, RC_SAMPLE[tier])
                 cases = shallow + deep
                 rng.shuffle(cases)
-                out = _replay_and_judge(cases, wd, "rc", 16, tier)
-                return g, cases, out, excused, len(shallow), n_deep, len(deep)
+                out, n_self = _replay_and_judge(cases, wd, "rc", 16, tier, selftest=True)
+                return g, cases, out, excused, len(shallow), n_deep, len(deep), n_self
 
             with ThreadPoolExecutor(max_workers=2) as ex:
                 f_ct = ex.submit(containers_pipeline)
                 f_rc = ex.submit(refcache_pipeline)
-                gens, ct_cases, ct_verdicts = f_ct.result()
-                g_rc, rc_cases, rc_verdicts, excused, n_shallow, n_deep, n_deep_used = f_rc.result()
+                gens, ct_cases, ct_verdicts, self_ct = f_ct.result()
+                (g_rc, rc_cases, rc_verdicts, excused, n_shallow, n_deep, n_deep_used,
+                 self_rc) = f_rc.result()
+            rep.extra["binding_selftest_corrupted_traces_rejected"] = self_ct + self_rc
             for g in gens + [g_rc]:
                 g["ok"] = True
                 rep.add_mc(g["cfg"], g)
@@ -187,6 +247,7 @@ def judge(rep: Report, prop: str, verdicts: List[dict], case_by_id: Dict[str, di
     known = load_open_findings(prop)
     pre = prop + "_"
     ops = 0
+    total = 0
     by_kind: Dict[str, int] = {}
     for v in verdicts:
         rep.traces += 1
@@ -214,8 +275,13 @@ def judge(rep: Report, prop: str, verdicts: List[dict], case_by_id: Dict[str, di
             if kfs:
                 rep.known_matched[kfs[0]] = rep.known_matched.get(kfs[0], 0) + 1
                 continue
+            total += 1
+            if len(rep.violations) >= MAX_REPORTED:
+                continue                     # counted, not written out
             path = core.write_replay(prop, fl["clause"], case, fl.get("diff"))
             rep.violations.append({"clause": fl["clause"], "case_id": v["id"],
                                    "diff": fl.get("diff"), "replay": path})
+    if total:
+        rep.extra["violating_case_clauses_total"] = total
     rep.extra["operations_executed"] = ops
     rep.extra["cases_by_kind"] = by_kind
